@@ -29,6 +29,13 @@ Round 3:
   clearing None) when a later statement of it can still refuse the call (assert / raise / float() / int()
   conversions / a helper method that asserts).  A refused call then leaves the object changed.
 * `setattr(self, ..)`, `self.__dict__`, `vars(self)` are not understood: ExtractError.
+
+Round 4:
+* a public method that is not a setter-like method and that assigns a cache slot (a value) or loads one directly
+  is entered as a GETTER `name()`: its guarded blocks are sites, a block under any other test of a slot is a
+  `refine` with a code id of its own.  A query method that re-fills, converts or replaces a slot that the
+  properties iterate (e.g. turning the cached list into a set for faster look-ups) then violates T1/T2 of
+  `wellFormed` and the table machine answers `alias` for the property read after it.
 """
 import ast
 import hashlib
@@ -258,9 +265,9 @@ class ClassInfo(object):
             self._memo[key] = ef
         return self._memo[key]
 
-    def getter_parts(self, name, stack=()):
-        """(guarded blocks [(guard_attrs, stmts)], unguarded stmts) of a getter."""
-        f = self.getters[name]
+    def getter_parts(self, name, stack=(), fn=None):
+        """(guarded blocks [(guard_attrs, stmts)], unguarded stmts) of a getter (or of the public method `fn`)."""
+        f = fn if fn is not None else self.getters[name]
         body = list(f.body)
         if body and isinstance(body[0], ast.Expr) and isinstance(getattr(body[0], 'value', None), ast.Constant) \
                 and isinstance(body[0].value.value, str):
@@ -477,9 +484,18 @@ class ClassInfo(object):
             for a, k in w.items():
                 all_writes.setdefault(a, set()).update(k)
         note(init.writes)
-        for name in sorted(self.getters):
-            blocks, rest = self.getter_parts(name)
+        def build_getter(name, fn=None):
+            blocks, rest = self.getter_parts(name, fn=fn)
             key = ('p', name)
+            saved_amap = getattr(self, '_amap', {})
+            if fn is not None:
+                self._amap = self._alias_map(fn)
+            try:
+                return build_getter_body(name, key, blocks, rest)
+            finally:
+                self._amap = saved_amap
+
+        def build_getter_body(name, key, blocks, rest):
             sites, refines = [], []
             reads, direct, clears = set(), set(), set()
             for g, test, blk in blocks:
@@ -510,8 +526,10 @@ class ClassInfo(object):
                 code = ast.dump(ast.Module(body=rest, type_ignores=[])) + '|' + '|'.join(sorted(set(un.code)))
                 sites.append({'guarded': False, 'guard': [], 'slots': uslots, 'code': code,
                               'reads': sorted(reads), 'clears': []})
-            getters[name] = {'sites': sites, 'direct': sorted(direct), 'reads': sorted(reads),
-                             'clears': clears, 'refines': refines}
+            return {'sites': sites, 'direct': sorted(direct), 'reads': sorted(reads),
+                    'clears': clears, 'refines': refines}
+        for name in sorted(self.getters):
+            getters[name] = build_getter(name)
         for name in sorted(self.setters):
             ef = self._setter_eff(name, ())
             note(ef.writes)
@@ -534,6 +552,18 @@ class ClassInfo(object):
                                         'clears': sorted(a for a, k in ef.writes.items() if k == {'none'}),
                                         'reads': sorted(ef.reads),
                                         'early': sorted(self.early_writes(self.methods[name]))}
+        # round 4: a public read-only METHOD that fills, rewrites or directly loads a cache slot is a reader of the
+        # cache like a property: it becomes a getter `name()` of the table (its blocks are sites / refines with
+        # their own code ids), so the well-formedness conditions (one slot - one defining expression, a reader
+        # fills what it loads, guards, ...) are demanded of it too and the table machine / the histories call it.
+        self.method_getters = []
+        for name in sorted(self.methods):
+            if name.startswith('_') or name + '()' in setters or name in ('duplicate',):
+                continue
+            ef = self._method_eff(name, ())
+            if any(('val' in k and a in slots0) for a, k in ef.writes.items()) or (set(ef.direct) & slots0):
+                getters[name + '()'] = build_getter(name + '()', fn=self.methods[name])
+                self.method_getters.append(name)
         dead = set(a for a, k in all_writes.items() if k == {'none'})
         # temporaries: an attribute that only unguarded blocks assign and that every getter loading it
         # assigns itself (unguarded) first is recomputed before each use - it is not a cache
@@ -658,6 +688,9 @@ def tables():
             if not m.startswith('_'):
                 ef = fi._method_eff(m, ())
                 tot['call:' + m] = {'reads': sorted(ef.reads), 'writes': sorted(ef.writes)}
+        for g in t['getters']:
+            if g.endswith('()') and 'call:' + g[:-2] in tot:
+                tot[g] = tot['call:' + g[:-2]]
         t['totals'] = tot
         out.append(t)
     return out
